@@ -126,6 +126,43 @@ fn cell(ctx: &mut Ctx, nv: usize, d: usize, rng: &mut ChaCha20Rng) {
             }
         }
     }
+    // ---- several polynomials opened together at one point: mixed shapes including the zero and a constant
+    // polynomial in every list position, hiding and not
+    {
+        let shapes = [Shape::Zero, Shape::Full, Shape::Const, Shape::Sparse];
+        let rot = below(rng, shapes.len());
+        let polys: Vec<LPoly<S>> = (0..shapes.len())
+            .map(|i| {
+                let sh = shapes[(i + rot) % shapes.len()];
+                let hiding = if rng.next_u32() % 3 == 0 { Some(range(rng, 1, sup)) } else { None };
+                LabeledPolynomial::new(format!("p{}", i), mv_poly::<Fr>(nv, sh, sup, rng), None, hiding)
+            })
+            .collect();
+        let mut dd = desc.clone();
+        dd["list"] = json!((0..shapes.len()).map(|i| format!("{:?}{}", shapes[(i + rot) % shapes.len()], if polys[i].hiding_bound().is_some() { "+hiding" } else { "" })).collect::<Vec<_>>());
+        match commit::<S>(&w.ck, &polys, rng.next_u64()) {
+            Err(o) => ctx.violated("polynomial-list-opens", "commit", dd, json!({"outcome": o.json()})),
+            Ok(c) => {
+                let z = <S as Scheme>::gen_point(&cfg, rng);
+                let vals: Vec<Fr> = polys.iter().map(|p| p.evaluate(&z)).collect();
+                let tx = Tx::<S> { w: World { cfg: cfg.clone(), pp: w.pp.clone(), ck: w.ck.clone(), vk: w.vk.clone() }, specs: vec![], polys, c, pre: b"c15-list".to_vec(), commit_seed: 0 };
+                let idx: Vec<usize> = (0..tx.polys.len()).collect();
+                match open::<S>(&tx, &idx, &z, &mut tx.sponge(), 1) {
+                    Err(o) => ctx.violated("polynomial-list-opens", "open", dd, json!({"outcome": o.json()})),
+                    Ok(pf) => {
+                        let comms: Vec<&LComm<S>> = tx.c.comms.iter().collect();
+                        let o = check::<S>(&tx.w.vk, &comms, &z, &vals, &pf, &mut tx.sponge(), 1);
+                        ctx.check(o == Out::Accept, "polynomial-list-opens", "check", dd.clone(), || json!({"outcome": o.json()}));
+                        let mut bad = vals.clone();
+                        let k = below(rng, bad.len());
+                        bad[k] += Fr::one();
+                        let o2 = check::<S>(&tx.w.vk, &comms, &z, &bad, &pf, &mut tx.sponge(), 1);
+                        ctx.check(!o2.is_accept(), "polynomial-list-binding", "check", dd, || json!({"outcome": o2.json(), "position": k}));
+                    }
+                }
+            }
+        }
+    }
 }
 
 pub fn run(ctx: &mut Ctx) {
